@@ -39,6 +39,9 @@ func genUniverse(r *rand.Rand) *nameUniverse {
 		enc.NewBytesComponent(enc.TypeGenericNameComponent, []byte{0x08, 0x01, 0x61}), // looks like an encoded component
 		enc.NewBytesComponent(enc.TypeGenericNameComponent, []byte{0xff}),
 		enc.NewBytesComponent(enc.TypeGenericNameComponent, []byte{0x00}),
+		enc.NewBytesComponent(enc.TypeVersionNameComponent, []byte{0x00, 0x01}), // non-shortest forms of v=1, seg=0
+		enc.NewBytesComponent(enc.TypeSegmentNameComponent, []byte{0x00, 0x00}),
+		enc.NewBytesComponent(enc.TypeVersionNameComponent, []byte{}),
 	}
 	// a boundary-sized value now and then (TLV length 252/253)
 	if r.Intn(4) == 0 {
@@ -48,15 +51,8 @@ func genUniverse(r *rand.Rand) *nameUniverse {
 	for i := 0; i < k; i++ {
 		u.comps = append(u.comps, pool[r.Intn(len(pool))])
 	}
-	// the String() form is the memory store's map key: the model keys children by the component itself, so it must
-	// be injective on the universe (checked, not assumed)
-	seen := map[string]enc.Component{}
-	for _, c := range u.comps {
-		if d, ok := seen[c.String()]; ok && !d.Equal(c) {
-			panic("Component.String() not injective on the universe: " + c.String())
-		}
-		seen[c.String()] = c
-	}
+	// NOTE: the memory store used to key its trie by Component.String(), which is not injective on non-shortest numeric
+	// components (v=5 for 05 and 00 05); the universe contains such pairs on purpose.
 	return u
 }
 
